@@ -37,6 +37,13 @@ Graphs == {
   G("cycle3", <<Imp("a.facto")>> \o Use2, ("a.facto" :> <<Imp("b.facto"), FAB>>) @@ ("b.facto" :> <<Imp("c.facto"), FB>>) @@ ("c.facto" :> <<Imp("a.facto"), Imp("b.facto"), FC>>))
  }
 
+\* the importer lives in a directory that is ITSELF on the search path (<cwd>/example_programs) and a same-named but different
+\* file lies in the working directory: the file next to the importer must win
+FDecoy == Fn("fa", <<>>, Bin("+", Bin("*", X, Num(7)), Num(100)))
+Decoys == {
+  [g EXCEPT !.grp = "decoy", !.subdir = "example_programs", !.decoys = ("a.facto" :> Render(<<FDecoy>>))] : g \in {
+      [G("single", <<Imp("a.facto")>> \o Use1, ("a.facto" :> <<FA>>)) EXCEPT !.grp = "decoy"] @@ [subdir |-> "", decoys |-> <<>>],
+      [G("chain", <<Imp("a.facto")>> \o Use1, ("a.facto" :> <<Imp("b.facto"), FAB>>) @@ ("b.facto" :> <<FB>>)) EXCEPT !.grp = "decoy"] @@ [subdir |-> "", decoys |-> <<>>]}}
 (* library: documented contracts of lib/math.facto (the interpreter's LibVal) *)
 LibP(grp, stmts, dom) == [grp |-> grp, stmts |-> stmts, src |-> Render(stmts), dom |-> dom]
 ML == Imp("math.facto")
@@ -51,5 +58,6 @@ Lib == {LibP("lib1", <<ML, InA, R1(f, <<A>>)>>, DomS) : f \in {"abs", "sign"}}
   \cup {LibP("libmix", <<ML, InA, InB, SLet("Signal", "m", CallE("max", <<A, B>>)), SLet("Signal", "r", CallE("abs", <<Ref("m")>>))>>, DomS),
         LibP("libmix", <<ML, Imp("math.facto"), InA, R1("abs", <<A>>)>>, DomS)}
 ASSUME PrintT(<<"NPROGS", Cardinality(Graphs), Cardinality(Lib)>>)
-ASSUME JsonSerialize(IOEnv.GEN_OUT, SetToSeq({[p EXCEPT !.grp = "graph:" \o p.grp] : p \in Graphs}) \o SetToSeq({[p EXCEPT !.grp = "lib:" \o p.grp] : p \in Lib}))
+ASSUME JsonSerialize(IOEnv.GEN_OUT, SetToSeq({[p EXCEPT !.grp = "graph:" \o p.grp] : p \in Graphs}) \o SetToSeq({[p EXCEPT !.grp = "graph:" \o p.grp] : p \in Decoys})
+                                    \o SetToSeq({[p EXCEPT !.grp = "lib:" \o p.grp] : p \in Lib}))
 =============================================================================
